@@ -15,6 +15,9 @@ func (i Intersection) String() string {
 }
 
 func (i Intersection) Compile(index Index) Iterator {
+	if len(i) == 0 {
+		return NewEmptyIterator()
+	}
 	iterators := make([]Iterator, len(i))
 	for j, query := range i {
 		iterators[j] = query.Compile(index)
